@@ -183,3 +183,41 @@ func TestVerifC05_ViaRetry(t *testing.T) {
 		})
 	})
 }
+
+// TestVerifC01_ReconnectRace: submissions timed around the moment the client redials after an
+// un-gated cut, so that SetClient / Connect of the new connection race with the task wake-up.
+func TestVerifC01_ReconnectRace(t *testing.T) {
+	vRun(t, "C01", vOpts{CurFile: true, ReplayReps: 200}, func(rt *rapid.T) e4Case {
+		c := e4Case{Cfg: e4GenConfig(rt)}
+		c.Cfg.BaseUs = rapid.SampledFrom([]int{100, 200, 500}).Draw(rt, "baseUs2")
+		c.Steps = []e4Step{{Kind: "connect"}, {Kind: "settle"}}
+		n := rapid.IntRange(1, 5).Draw(rt, "rounds")
+		idx := 0
+		for i := 0; i < n; i++ {
+			c.Steps = append(c.Steps, e4Step{Kind: "cutNow"}, e4Step{Kind: "sleepBase", Extra: rapid.IntRange(-150, 400).Draw(rt, "delta")})
+			m := rapid.IntRange(1, 3).Draw(rt, "burst")
+			for j := 0; j < m; j++ {
+				idx++
+				k := rapid.SampledFrom([]string{"pub", "pub", "pub", "sub", "unsub"}).Draw(rt, "kind")
+				c.Steps = append(c.Steps, e4Step{Kind: k, QoS: rapid.IntRange(0, 2).Draw(rt, "qos"), Topic: "t/a", Idx: idx})
+			}
+			if rapid.Bool().Draw(rt, "settle") {
+				c.Steps = append(c.Steps, e4Step{Kind: "settle"})
+			}
+		}
+		return c
+	}, func(tb rapid.TB, c e4Case) {
+		e4Check(tb, "C01", c, func(r *e4Result) string {
+			if msg := e4OracleC01(r); msg != "" {
+				return msg
+			}
+			for _, pe := range r.ProtoErrs {
+				return "protocol error while reconnecting: " + pe
+			}
+			return ""
+		}, func(r *e4Result) (bool, []string) {
+			pending, _ := e4PendingAtFaults(r)
+			return pending >= 1 || len(r.Conns) >= 2, []string{"reconnect-race"}
+		})
+	})
+}
